@@ -1,6 +1,70 @@
 """C13, C14 — History.tla against routinator::payload::SharedHistory."""
 import json
+import os
+import re
+import shutil
 import lib
+
+
+def trace_validation(ctx, pid):
+    """Random long executions of the real SharedHistory (vh histtrace), validated by TLC against Trace_History.tla
+    in the mode of the property (C13: queries judged, C14: runs judged)."""
+    episodes = 400 if ctx.thorough else 60
+    trace = ctx.path("histtrace.ndjson")
+    res = lib.vh(ctx, "histtrace", None, props=[pid], opts={"trace": trace, "episodes": episodes}, out_name="histtrace",
+                 timeout=1200)
+    r = res["per_property"][pid]
+    env = {"TRACE": trace, "MODE": pid, "JAVA_TOOL_OPTIONS": "-Xss1g -Dtlc2.tool.queue.IStateQueue=StateDeque"}
+    t = lib.tlc(ctx, "trace_history", "Trace_History.tla", "Trace_History.cfg", workers=1, timeout=1500, env_extra=env,
+                expect_ok=False, count=False, cacheable=False)
+    with open(t["out"], errors="replace") as f:
+        out = f.read()
+    accepted = t["rc"] == 0 and "No error has been found" in out and "TRACE-REJECTED" not in out
+    if not accepted and "TRACE-REJECTED" not in out:
+        raise lib.ToolError("TLC could not validate the history trace (rc=%s): %s" % (t["rc"], out[-300:].replace("\n", " ")))
+    notes = r.setdefault("notes", {})
+    notes["trace_accepted"] = accepted
+    with open(trace) as f:
+        lines = f.read().splitlines()
+    notes["trace_events"] = len(lines)
+    if not accepted:
+        m = re.search(r"TRACE-REJECTED at event\W+(\d+)", out)
+        at = int(m.group(1)) if m else 0
+        ev = lines[at - 1] if 0 < at <= len(lines) else ""
+        kind = "run" if '"ev":"run"' in ev else "query" if '"ev":"query"' in ev else "other"
+        # the episode up to the rejected event is the replay
+        start = max(i for i in range(at) if '"ev":"reset"' in lines[i]) if at else 0
+        keep = os.path.join(lib.REPLAYS, "%s-histtrace-%d.ndjson" % (pid, ctx.seed))
+        os.makedirs(lib.REPLAYS, exist_ok=True)
+        with open(keep, "w") as f:
+            f.write("\n".join(lines[start:at]) + "\n")
+        r.setdefault("violations", []).append({
+            "sig": "trace-rejected/" + kind,
+            "detail": "a recorded execution of the real SharedHistory is not a behaviour of Trace_History.tla (mode %s); "
+                      "first event the specification cannot take: %s" % (pid, ev[:300]),
+            "behaviour": {"trace_file": keep, "event": at}, "observed": {"event": ev[:300]}})
+    else:
+        # the binding has teeth: one corrupted field must make TLC reject the trace
+        bad = ctx.path("histtrace_corrupt.ndjson")
+        done = False
+        with open(bad, "w") as f:
+            for i, l in enumerate(lines[:600]):
+                if not done and i > 30:
+                    if pid == "C14" and '"ev":"run"' in l and '"changed":true' in l:
+                        l = l.replace('"changed":true', '"changed":false')
+                        done = True
+                    elif pid == "C13" and '"res":"delta"' in l and '"ann":[]' not in l:
+                        l = re.sub(r'"ann":\[\d+', '"ann":[', l).replace('"ann":[,', '"ann":[')
+                        done = True
+                f.write(l + "\n")
+        if done:
+            t2 = lib.tlc(ctx, "trace_history_corrupt", "Trace_History.tla", "Trace_History.cfg", workers=1, timeout=600,
+                         env_extra=dict(env, TRACE=bad), expect_ok=False, count=False, cacheable=False)
+            with open(t2["out"], errors="replace") as f:
+                if "TRACE-REJECTED" not in f.read():
+                    raise lib.ToolError("a corrupted trace is accepted by Trace_History.tla: the trace specification lost its teeth")
+            notes["corrupted_trace_rejected"] = True
+    return r
 
 
 def _run(ctx):
@@ -27,6 +91,8 @@ def _run(ctx):
         raise lib.ToolError("no behaviours exported by Gen_History")
     res = lib.vh(ctx, "history", beh, props=[pid])
     r = res["per_property"][pid]
+    if not ctx.replay:
+        r = lib.merge_results(r, trace_validation(ctx, pid))
     ctx.extra["behaviours_exported"] = n
     ctx.assumptions += [
         "the 2^30 serial space of the export and the 2^32 space of the code agree on every comparison used, because "
@@ -34,6 +100,9 @@ def _run(ctx):
         "around server serial + half the space",
         "data sets are installed via SLURM assertions on an empty validation report (public API)",
         "hook H9 (verif_seed_serial) places the session at an arbitrary serial",
+        "trace validation (Trace_History.tla): random single-threaded executions (history size 0..10, 20-60 steps, start "
+        "serials at both wraps, six items of two payload types) recorded from the public API; the seed hook's own "
+        "artefact (an empty change set leading to the start serial) is not queried",
     ]
     if pid == "C13":
         rule = ("every exported history (history size 0..3, natural start and 4 seeded start serials incl. around "
